@@ -45,7 +45,7 @@ REQUIRED = {"all": ["move:full_shuffle", "move:swapRes", "move:swapRandChargeRes
                     "move:permute_cluster_charges", "move:get_shuffled_sequence", "move:get_permutant", "chains",
                     "hostile_tapes", "parent_dmax_cached", "parent_dmax_not_cached", "frozen_nonempty", "frozen_only_zero",
                     "frozen_all_charged", "uncharged_parents", "returned_parent_itself", "carried_dmax_checked",
-                    "ancestors_checked", "frozen_as_numpy_array", "frozen_list_with_repeats", "frozen_with_negative_entries", "reduced_alphabet_parents", "long_parents_with_large_frozen_sets", "default_shuffle_mobility_checks", "child_permutants_checked"]}
+                    "ancestors_checked", "frozen_as_numpy_array", "frozen_list_with_repeats", "frozen_with_negative_entries", "reduced_alphabet_parents", "long_parents_with_large_frozen_sets", "default_shuffle_mobility_checks", "child_permutants_checked", "parents_whose_movable_positions_hold_one_letter"]}
 NCASE = {"quick": 700, "thorough": 8000}
 DRAW_BUDGET = 20000
 BACKEND_MOVES = ["full_shuffle", "swapRes", "swapRandChargeRes", "permute_block_swap", "permute_cluster_charges"]
@@ -63,6 +63,10 @@ def cases(tier, seed):
         else:
             s = gen.rand_seq(rng, rng.choice(["idp", "polyampholyte", "polyelectrolyte", "short", "neutral_rich", "uniform", "single"]), hi=40)
         yield {"s": s, "o": rng.randrange(1 << 30), "hostile": (i % 4 == 0)}
+    # every movable position holds the same letter and a different letter is frozen: the only possible result is the parent's own
+    # sequence, and the shuffle returns it
+    for s_, fz_ in [("GGGGGKGGGGG", [5]), ("KKKKE", [4]), ("EGGGG", [0]), ("QQQQQQQQKE", [8, 9]), ("AK", [1]), ("SSSSSSSSSSSSSSSSSSSD", [19])]:
+        yield {"s": s_, "o": rng.randrange(1 << 30), "hostile": False, "fixed_frozen": fz_}
     # parents of 100-300 residues with half (or a quarter, or all but a few) of the positions frozen: index sets that no
     # longer behave like small sets
     for i in range(NCASE[tier] // 25):
@@ -188,6 +192,9 @@ def judge(case, rep, S):
     N = len(seq)
     rng = gen.sub_rng(case["o"], ID)
     frozen = make_frozen(rng, seq, rep)
+    if case.get("fixed_frozen"):
+        frozen = list(case["fixed_frozen"])
+        rep.cnt("parents_whose_movable_positions_hold_one_letter")
     if case.get("big_frozen"):
         frozen = {"first_half": list(range(N // 2)), "last_half": list(range(N // 2, N)), "first_quarter": list(range(N // 4)),
                   "all_but_five": sorted(set(range(N)) - set(rng.sample(range(N), 5))), "every_other": list(range(0, N, 2))}[case["big_frozen"]]
